@@ -85,6 +85,11 @@ class Nff(object):
                       if self.f1[i] is not None and self.f1[i + 1] is not None
                       and abs(self.f1[i + 1] - self.f1[i]) > 0.5]
         self.first_f1 = min(i for i in range(n) if self.f1[i] is not None)
+        # rows that are not inside a strictly increasing stretch: the interpolant is ambiguous there
+        self.bad_rows = set()
+        for i in range(n - 1):
+            if not self.Ek[i + 1] > self.Ek[i]:
+                self.bad_rows.update((i, i + 1))
 
     @property
     def emin(self):
@@ -120,13 +125,25 @@ class Nff(object):
         t = (q - x[j]) / (x[j + 1] - x[j])
         return y0 + (y1 - y0) * t, max(abs(y0), abs(y1))
 
-    def accept(self, col, E, w=WINDOW):
+    def accept(self, col, E, w=WINDOW, exact_row=None):
         """Acceptable results for column *col* (1 or 2) at energy E (keV):
         (lo, hi, nan_ok, scale); lo is None if no finite value is acceptable.
-        Returns None if E touches a non-monotonic stretch of the file."""
+        Returns None if E touches a non-monotonic stretch of the file.
+
+        *exact_row*: the query is exactly the energy of that table row (as the
+        library itself serves it): the tabulated value of the row is required,
+        whatever its neighbours are (tolerance 4 eps: scale is |y|/8 because
+        the caller allows 32 eps * scale)."""
+        y = self.f1 if col == 1 else self.f2
+        if exact_row is not None:
+            if exact_row in self.bad_rows:
+                return None
+            v = y[exact_row]
+            if v is None:
+                return None, None, True, 0.0
+            return v, v, False, abs(v) / 8
         if self.in_bad(E, w):
             return None
-        y = self.f1 if col == 1 else self.f2
         elo, ehi = E * (1 - w), E * (1 + w)
         vals, nan_ok, scale = [], False, 0.0
         for q in (elo, E, ehi):
